@@ -21,7 +21,7 @@ ANCHORS = ["State.__eq__", "Lanelet.__eq__", "Obstacle.__eq__", "Obstacle.__hash
            "TrafficSign.__eq__", "Intersection.__eq__"]
 REQUIRED = ["law.reflexive", "law.deepcopy", "law.symmetric", "law.twin", "law.perturbation", "law.hash-total",
             "law.hash-consistent", "defaults-instance", "law.kwargs-order", "law.cross-class-state", "law.optional-subsets", "law.derived-attribute-twin",
-            "coordinates-of-different-magnitude", "law.after-update_initial_state", "law.assembly-twin", "law.moved-after-compared", "law.other-representation", "law.other-representation.array-dtype", "law.inspected-twin", "perturbation.emptied-collection", "law.none-vs-empty-twin",
+            "coordinates-of-different-magnitude", "law.after-update_initial_state", "law.assembly-twin", "law.moved-after-compared", "law.other-representation", "law.other-representation.array-dtype", "law.inspected-twin", "perturbation.emptied-collection", "law.none-vs-empty-twin", "law.default-instances-share-nothing",
             "class.Polygon.large", "class.Lanelet.large"]
 ASSUMPTIONS = ["perturbations are clearly different valid values (never a duplicate; a reordering only for the member lists of shape groups and light cycles, whose order carries meaning)",
                "real perturbations are >= 1e-6, i.e. far above the documented 1e-10 resolution"]
@@ -833,6 +833,44 @@ def run(ctx):
         # L5 single perturbations (populated instances only: for the all-defaults instance the harness does not know
         # which values differ from the constructor defaults, so only reflexivity / deepcopy / hash laws are judged)
         if use_defaults:
+            # two objects built with the constructor defaults are two objects: filling the collections of one of them in
+            # place (lists appended to, sets / dicts added to, through the public attributes) leaves the other one as it was
+            y = safe(lambda: build(defaults=True)[0])
+            ys = safe(copy.deepcopy, y[1]) if y[0] == "ok" else ("exc", None)
+            if y[0] == "ok" and ys[0] == "ok":
+                sentinel = 987654321
+                touched = []
+                for a_ in sorted(set(dir(type(x))) & set(dir(x))):
+                    if a_.startswith("_") or not isinstance(getattr(type(x), a_, None), property):
+                        continue
+                    v_ = safe(getattr, x, a_)
+                    if v_[0] != "ok":
+                        continue
+                    v_ = v_[1]
+                    try:
+                        if isinstance(v_, list):
+                            v_.append(sentinel)
+                        elif isinstance(v_, set):
+                            v_.add(sentinel)
+                        elif isinstance(v_, dict):
+                            v_[sentinel] = sentinel
+                        else:
+                            continue
+                    except Exception:  # noqa
+                        continue
+                    touched.append(a_)
+                if touched:
+                    ctx.evaluation()
+                    ctx.feature("law.default-instances-share-nothing")
+                    for a_ in touched:
+                        w_ = safe(getattr, y[1], a_)
+                        if w_[0] == "ok" and isinstance(w_[1], (list, set, dict)) and sentinel in w_[1]:
+                            V("default-instances-share-a-collection", "an element added to %s of one default-constructed "
+                              "object shows up in another default-constructed object" % a_, a_)
+                    r = eq_ops(y[1], ys[1])
+                    if r[0] == "ok" and r[1] != (True, True, False, False):
+                        V("default-instance-changed-by-filling-another-one", "y==copy_of_y_before -> %s after %s of "
+                          "another default-constructed object were filled" % (r[1], touched))
             continue
         # ... plus, for every collection-valued parameter that is populated, the variant with NOTHING in it (the first
         # element of a kind is a difference like any other -- whichever operand is on the left)
